@@ -520,6 +520,13 @@ def twin_files():
     return pairs
 
 
+def splice_nest(n):
+    s_ = "1"
+    for _ in range(n):
+        s_ = '"%( ' + s_ + ' %)"'
+    return s_
+
+
 def mix_ref(cache, prog, path, raw, core_inp):
     key = (prog, path, raw, core_inp)
     if key in cache:
@@ -548,6 +555,11 @@ def run_mix(steps, cache, reuse=False):
         for k, (prog, path, raw, core_inp) in enumerate(steps):
             ref = mix_ref(cache, prog, path, raw, core_inp)
             if ref is None:
+                # does not compile in a fresh process: it must be rejected here too -- and leave nothing behind for
+                # the compilations that follow
+                r = d.parse(prog)
+                if "q" in r:
+                    return k, "is rejected in a fresh process, compiles here"
                 continue
             if path is not None and (path, raw) not in toks:
                 toks[(path, raw)] = "V%d" % d.open(path, raw)
@@ -603,6 +615,14 @@ def work_mix(task):
         if rnd.random() < 0.5:
             steps += [rnd.choice(steps) for _ in range(rnd.randint(1, 3))]      # the same thing again later
         reuse = rnd.random() < 0.4
+        if rnd.random() < 0.1:
+            # compilations around a limit of the parser: accepted at 99 nested splices, rejected beyond -- the same text
+            # compiled again after rejections must compile again
+            reuse = False
+            q = lambda n: splice_nest(n)
+            steps = [(q(99), None, False, "")] + [(q(rnd.choice([100, 101, 150])), None, False, "") for _ in range(rnd.randint(1, 4))] \
+                + [(q(rnd.choice([99, 98, 97, 95])), None, False, ""), (rnd.choice(MIX_CORE[:20]), None, False, ""), (q(99), None, False, "")]
+            ev.label("mixed-sequence:rejected-compilations-in-between")
         if reuse:
             # the same few queries again and again, on alternating inputs
             few = rnd.sample(steps, min(len(steps), 2))
@@ -667,6 +687,7 @@ def main(tier, seed):
                           "random histories": ev.labels.get("random-history", 0) > 100,
                           "mixed sequences": ev.labels.get("mixed-sequence", 0) > 100,
                           "mixed sequences with one compiled query executed on several inputs": ev.labels.get("mixed-sequence:one-compiled-query-many-inputs", 0) > 100,
+                          "mixed sequences with rejected compilations in between": ev.labels.get("mixed-sequence:rejected-compilations-in-between", 0) > 50,
                           "mixed sequences over twin files (same offsets, different meaning)": ev.labels.get("mixed-sequence:twin-files", 0) > 100})
 
 
